@@ -358,6 +358,7 @@ func variadicArgs(v ssa.Value) []ssa.Value {
 }
 
 func runC43(c *Ctx) {
+	c43ListenerBuilds(c)
 	c43NumberBases(c)
 	kp := "gateway/pktcls."
 	c43Combinator(c, "("+kp+"CondAllOf).Eval", false, false)
